@@ -190,16 +190,50 @@ def check(src, rep):
                        "and that no guard on the path removes, dictionary look-ups with wire-derived keys without membership test, explicit raises, and the partial built-ins of the P1 text decoder - "
                        "is covered by the except clause around the decoder call in both decode methods; the P1 scanner's loop positions never depend on an unchecked find() result and every iteration "
                        "advances; every GreedyRange body consumes at least one octet. NOT decided: the polynomial time/memory bound.")
-    sites = handler_names(M)
-    for mname, line, names, txt in sites:
-        if not names:
-            rep.violation("R1", f"autodecoder.AutoDecoder.{mname}", "unprotected-decoder-call", "a decoder is called outside any try/except: its rejections escape AutoDecoder", src.file("autodecoder"), line, witness=txt)
-    handlers = [(names, mname, line) for mname, line, names, txt in sites if names]
-    rep.count("decoder_call_sites", len(sites))
     try:
         table = ce.class_const("autodecoder", "AutoDecoder", "payload_decoder_functions")
     except NotConstant as e:
         raise Undecided(f"decoder table not constant: {e}")
+    # which exception classes raised by a table decoder leave the AutoDecoder: decided by interpreting both decode methods (E-ABS) with every
+    # decoder replaced by an oracle that raises the class in question -- independent of how the try/except is written
+    from sa.abseval import AbsEval, AObj, AbsRaise
+    AC = M.classes.get(("autodecoder", "AutoDecoder"))
+    if AC is None or "decode_message_payload" not in AC.methods or "decode_message" not in AC.methods:
+        raise Undecided("anchor vanished: AutoDecoder.decode_message_payload / decode_message")
+    mem = list(AC.field_inits)
+    caught_memo = {}
+
+    def escapes_autodecoder(cls):
+        """names of the decode methods that let `cls` (raised by a decoder) escape; raises Undecided when not interpretable"""
+        if cls not in caught_memo:
+            out = []
+            for mname in ("decode_message_payload", "decode_message"):
+                AE = AbsEval(M)
+
+                def oracle(args, kw, cls=cls):
+                    raise AbsRaise(cls)
+                for nm, fr in table:
+                    AE.func_hooks[(fr.mod, fr.node.name)] = oracle
+                AE.func_hooks[("dlde", "decode_p1_readout")] = oracle
+                for prev in (None, 3):
+                    for mtype in (("HdlcFrame", "DataReadout") if mname == "decode_message" else ("payload",)):
+                        obj = AObj("AutoDecoder", {m_: prev for m_ in mem}, cls_key=("autodecoder", "AutoDecoder"))
+                        arg = b"\x01\x02" if mtype == "payload" else AObj(mtype, {"payload": b"\x01\x02", "is_valid": True, "as_bytes": b"\x01\x02"})
+                        r = AE.apply(AC.methods[mname], [obj, arg])
+                        if r[0] in ("undecided", "branch"):
+                            raise Undecided(f"AutoDecoder.{mname} outside the interpreted subset: {r[1]}")
+                        if r[0] == "raise" and mname not in out:
+                            out.append(mname)
+            caught_memo[cls] = out
+        return caught_memo[cls]
+
+    handlers = [((), "decode_message_payload", AC.methods["decode_message_payload"].node.lineno)]
+    rep.count("decoder_call_sites", 2)
+    for base_cls in ("ValueError", "ConstructError", "StreamError"):
+        esc_m = escapes_autodecoder(base_cls)
+        if esc_m:
+            rep.violation("R1", f"autodecoder.AutoDecoder.{esc_m[0]}", "unprotected-decoder-call", f"a decoder rejecting with {base_cls} is not caught: its rejections escape AutoDecoder", src.file("autodecoder"),
+                          AC.methods[esc_m[0]].node.lineno, witness=base_cls)
     n_sites = 0
     n_esc = 0
     reported = set()
@@ -207,16 +241,15 @@ def check(src, rep):
     def sink_for(decoder_name, mod):
         def sink(esc: Escape):
             nonlocal n_esc
-            for hs, mname, hline in handlers:
-                if not covered(esc.cls, hs):
-                    key = (esc.cls, esc.origin)
-                    if key in reported:
-                        return
-                    reported.add(key)
-                    n_esc += 1
-                    rep.violation("R1", f"{mod}.{esc.origin.split(':')[0]}", f"escape:{esc.cls}:{esc.origin.split(':', 1)[-1]}",
-                                  f"{esc.cls} can leave decoder '{decoder_name}' and is not caught by `except ({', '.join(hs)})` around the decoder call at line {hline} of AutoDecoder.{mname}: {esc.text}", src.file(mod), esc.line)
+            for mname in escapes_autodecoder(esc.cls.split(".")[-1]):
+                key = (esc.cls, esc.origin)
+                if key in reported:
                     return
+                reported.add(key)
+                n_esc += 1
+                rep.violation("R1", f"{mod}.{esc.origin.split(':')[0]}", f"escape:{esc.cls}:{esc.origin.split(':', 1)[-1]}",
+                              f"{esc.cls} can leave decoder '{decoder_name}' and is not caught around the decoder call of AutoDecoder.{mname}: {esc.text}", src.file(mod), esc.line)
+                return
         return sink
 
     # ---- grammar lambdas + typed normalisers, per COSEM decoder module
@@ -268,8 +301,12 @@ def check(src, rep):
     # ---- the P1 decoder: partial built-ins and explicit raises, by AST census with the handler
     _p1_escapes(rep, M, src, sink_for("P1", "dlde"))
     if n_esc == 0:
-        rep.ok("R1", f"{len(table)} table decoders", f"{n_sites} lambda sites / normaliser paths analysed: every exception class that can leave a decoder is caught at each of the {len(handlers)} decoder call sites ({sorted(set(handlers[0][0]))})")
+        rep.ok("R1", f"{len(table)} table decoders", f"{n_sites} lambda sites / normaliser paths analysed: every exception class that can leave a decoder ({sorted(caught_memo)}) is caught by both decode methods (oracle decoders raising each class, E-ABS)")
     rep.count("analysed_sites", n_sites)
+    from sa.cross import include
+    include(rep, src, "C20", {"R1", "R2"}, "R1", "the OBIS parser behind the P1 and COSEM decoders rejects malformed codes with ValueError only (no TypeError from absent regex groups)")
+    include(rep, src, "C09", {"R2"}, "R1", "the Kamstrup normaliser is well-typed for lists without / with a non-text meter-type element (no AttributeError/TypeError)")
+    include(rep, src, "C12", {"R5"}, "R1", "decode_message hands only real payloads to the decoders (a message without payload is answered with None)")
     rep.floor("analysed sites", n_sites, 40)
     # ---------------------------------------------------------------- R2 scanner termination
     _scanner(rep, M, src)
